@@ -43,3 +43,45 @@ def call_forked(args):
     if status != "ok":
         raise RuntimeError("%s(%r) failed in the child: %s" % (getattr(fn, "__name__", fn), item, res))
     return res
+
+
+def _tag(obj, module, fn_name, arg):
+    """Attach the chunk (module, function, argument) to every violation dict found in a chunk's result."""
+    if isinstance(obj, dict) and "sig" in obj and "case" in obj:
+        obj.setdefault("chunk_case", {"kind": "chunk", "module": module, "fn": fn_name, "arg": arg, "expect_sig": obj["sig"]})
+    elif isinstance(obj, (list, tuple)):
+        for x in obj:
+            _tag(x, module, fn_name, arg)
+
+
+def call_chunk(args):
+    """(module name, function name, JSON-able argument): run the chunk in a forked child; violations carry the chunk as
+    replay context, so a failure that depends on earlier cases of the same chunk can still be replayed."""
+    import importlib
+
+    module, fn_name, arg = args
+    fn = getattr(importlib.import_module(module), fn_name)
+    status, res = forked(fn, arg)
+    if status != "ok":
+        raise RuntimeError("%s.%s(%r) failed in the child: %s" % (module, fn_name, arg, res))
+    _tag(res, module, fn_name, arg)
+    return res
+
+
+def replay_chunk(case):
+    """Re-run a recorded chunk (in this process) and return the violations with the recorded signature."""
+    import importlib
+
+    fn = getattr(importlib.import_module(case["module"]), case["fn"])
+    out = []
+
+    def collect(obj):
+        if isinstance(obj, dict) and "sig" in obj and "case" in obj:
+            if obj["sig"] == case.get("expect_sig", obj["sig"]):
+                out.append(obj)
+        elif isinstance(obj, (list, tuple)):
+            for x in obj:
+                collect(x)
+
+    collect(fn(case["arg"]))
+    return out
